@@ -85,11 +85,12 @@ theorem decode_record_no_panic (ty : Token.TokenType) (data : Bytes) :
 
 /-! ## MySQL version comments (`sqlparser.ExtractMysqlComment`, called by the tokenizer on client SQL) -/
 
-/-- `sqlparser/comments.go`: `/*!` and `*/` are 3 + 2 bytes, the version scan stops at the 6th character,
-and the function handles "nothing follows the version digits" before slicing. -/
+/-- `sqlparser/comments.go`: `ExtractMysqlComment` cuts 3 + 2 bytes (`/*!`, `*/` – what the tokenizer
+guarantees to be there) and handles "nothing follows the version digits" before slicing. (How many version
+digits it takes is not needed for the claim; the model reads that bound from the source.) -/
 theorem fact_mysql_comment :
     Generated.SqlComment.cutFront = 3 ∧ Generated.SqlComment.cutBack = 2 ∧
-    Generated.SqlComment.versionDigitBound = 6 ∧ Generated.SqlComment.noTextGuard = true := by decide
+    Generated.SqlComment.noTextGuard = true := by decide
 
 /-- **No complete version comment makes `ExtractMysqlComment` panic** (ASCII model): the tokenizer
 calls it with `/*!` … `*/`, i.e. at least 5 bytes; `/*!123*/`, `/*!*/`, `/*!12345*/` used to slice `sql[0:-1]`. -/
